@@ -82,7 +82,7 @@ def gen_cases(tier, scratch):
              "via": "mapping" if k % 5 else "adapter",
              # presentation of the entries (not part of the enumerated domain; varied deterministically)
              "samode": "table" if (k // 2) % 2 else "none",
-             "refmode": ("both", "auth", "both" if icodes else "label")[k % 3],
+             "refmode": "mixed" if k % 7 == 3 else ("both", "auth", "both" if icodes else "label")[k % 3],
              "dom": d}
         c["entries"] = [{"a": e[0], "b": e[1], "lw": e[2]} for e in d["entries"]]
         cases.append(c)
@@ -242,17 +242,22 @@ def saenger_for(st, e, samode):
 def materialise_entries(st, s3d, entries, refmode):
     from rnapolis.common import BasePair, LeontisWesthof, Residue, ResidueAuth, ResidueLabel, Saenger
 
-    def ref(k):
+    def ref(k, mode=None):
+        refmode_ = mode or refmode
         if k == 0:   # names a residue that is not in the structure
             lab, auth = ResidueLabel("zz", 9999, "G"), ResidueAuth("zz", 9999, None, "G")
         else:
             r = s3d.residues[k - 1]
             lab, auth = r.label, r.auth
-        if refmode == "auth" and auth is not None:
+        if refmode_ == "auth" and auth is not None:
             return Residue(None, auth)
-        if refmode == "label" and lab is not None:
+        if refmode_ == "label" and lab is not None:
             return Residue(lab, None)
         return Residue(lab, auth)
+    if refmode == "mixed":
+        # a list merged from two sources: every other entry names its residues the external tools' way
+        return [BasePair(ref(e["a"], ("both", "auth")[n % 2]), ref(e["b"], ("both", "auth")[n % 2]), LeontisWesthof[e["lw"]],
+                         Saenger[e["sa"]] if e["sa"] else None) for n, e in enumerate(entries)]
     return [BasePair(ref(e["a"]), ref(e["b"]), LeontisWesthof[e["lw"]], Saenger[e["sa"]] if e["sa"] else None)
             for e in entries]
 
